@@ -313,9 +313,9 @@ func genC01(c *Ctx) {
 	}
 	for k := 0; k < c.Budget && !c.Exhausted(); k++ {
 		mode := []CoordMode{CoordBits, CoordBits, CoordFloat, CoordSmallInt}[r.Intn(4)]
-		opt := GenOpts{Mode: mode, MaxPts: 6, MaxDepth: 4, TopNil: true}
+		opt := GenOpts{Mode: mode, MaxPts: 6, MaxDepth: 4, TopNil: true, InnerNil: true}
 		g := genGeom(r, opt, 0)
-		c.Case("rt", fmt.Sprintf("%d %d %s", r.Intn(2), genSrid(c), gs(g)))
+		c.Case("rt", fmt.Sprintf("%d %d %s", r.Intn(2), genSrid(c), gsN(g)))
 		// scanner: destination x framing
 		d := c01Dests[r.Intn(len(c01Dests))]
 		fr := c01Framings[r.Intn(len(c01Framings))]
